@@ -332,6 +332,11 @@ impl Adsr {
         self.phase_accumulator.verif_set_accumulator(acc)
     }
 
+    /// the stored output and the accumulator fields `verif_state` does not show
+    pub fn verif_raw(&self) -> (f32, (u32, u32, bool)) {
+        (self.value, self.phase_accumulator.verif_raw())
+    }
+
     pub const VERIF_TOT_NUM_ACCUM_BITS: u32 = TOT_NUM_ACCUM_BITS;
     pub const VERIF_NUM_LUT_INDEX_BITS: u32 = NUM_LUT_INDEX_BITS;
 }
